@@ -33,11 +33,21 @@ def encode_as_wav(base, code, bk_filename, turbo=False):
             + env.PAUSE
             + encode_data_bits(code, env)
             + (env.PAUSE if turbo else b"")
-            + encode_data_bits(struct.pack("<H", sum(code) % (2 ** 16 - 1)), env)
+            + encode_data_bits(struct.pack("<H", checksum(code)), env)
             + env.EOF
         ),
         env.sample_rate
     )
+
+
+def checksum(code):
+    # 16-bit sum with end-around carry, the way the BK-0010 monitor adds the
+    # bytes up. This is 'sum % 65535' except that a non-zero sum never folds
+    # to 0: multiples of 65535 give 0xFFFF.
+    total = sum(code)
+    while total > 0xFFFF:
+        total = (total & 0xFFFF) + (total >> 16)
+    return total
 
 
 def encode_data_bits(data, env):
